@@ -101,6 +101,7 @@ func (m *ModuleInstance) CloseWithExitCode(ctx context.Context, exitCode uint32)
 	if !m.setExitCode(exitCode, exitCodeFlagResourceClosed) {
 		return nil // not an error to have already closed
 	}
+	VerifYield("close:after-cas", m)
 	_ = m.s.deleteModule(m)
 	return m.ensureResourcesClosed(ctx)
 }
